@@ -28,8 +28,8 @@ func init() {
 		Required:      []string{"accepted", "rejected", "outcome:value", "outcome:deliberate-abort", "result:bool", "result:number", "result:string", "result:nodeset"},
 		Families: []Family{
 			witnessFamily("C15"),
-			{Name: "tok", N: tierN(80000, 1500000), Run: c15Tok},
-			{Name: "typed", N: tierN(20000, 300000), Run: c15Typed},
+			{Name: "tok", N: tierN(300000, 4000000), Run: c15Tok},
+			{Name: "typed", N: tierN(80000, 1000000), Run: c15Typed},
 		},
 	})
 }
@@ -144,7 +144,7 @@ func init() {
 		Required:      []string{"damage:trunc-op", "damage:trunc-slash", "damage:trunc-[", "damage:trunc-(", "damage:trunc-quote", "damage:trunc-comma", "damage:del-]", "damage:del-)", "damage:del-quote", "damage:unknown-function", "damage:remove-args", "damage:unknown-axis", "damage:qname"},
 		Families: []Family{
 			witnessFamily("C17"),
-			{Name: "damage", N: tierN(12000, 200000), Run: c17Damage},
+			{Name: "damage", N: tierN(40000, 500000), Run: c17Damage},
 		},
 	})
 }
